@@ -162,6 +162,10 @@ def build_corpus(tier, rng):
                 continue
             for kind in (["tostring", "asstatic"] if deprecated else ["display", "asref", "intostatic"]):
                 c.add_q(k, kind, [j, i], note=tag)
+            if not deprecated:
+                # Display returns the canonical name to EVERY caller, also one that pads or truncates (whatever the variant's kind)
+                for sp in (["-", ">", "12", "-"], ["x2a", "^", "9", "3"], ["-", "-", "-", "2"]):
+                    c.add_q(k, "display", [j, i] + sp, note="spec")
     return c
 
 
@@ -183,7 +187,7 @@ def compare(corpus, k, kind, args, note, iobs, mobs, cfg):
         want = "[" + ";".join(S.hx(v["preferred"]) for v in info["variants"]) + "]"
         if mobs != want:
             return False, nt, "model VARIANTS differ from the canonical names"
-    else:
+    elif len(args) == 2:     # (queries with a format spec are compared with the model only: the padded name is not the bare name)
         canon = "str:" + S.hx(info["variants"][int(args[1])]["preferred"])
         if mobs.split("|")[0] != canon:
             return False, nt, "model prints %s, canonical name is %s" % (mobs, canon)
